@@ -76,15 +76,48 @@ func fieldOfEntry(v ssa.Value, entry ssa.Value, name string) bool {
 func c20Site(c *Ctx, s grpcSite) {
 	fn := s.fn
 	key := fk(fn)
-	var inv *ssa.Call
+	// the invocation: Stub.InvokeRpc in the shooting function, or in a helper of the package that only it calls
+	// (g.invoke(method, message, md)); `inv` then is the call of that helper - the place of the invocation in the
+	// shooting function - and invArg(k) the k-th argument of InvokeRpc as the shooting function sees it (a parameter
+	// of the helper stands for the argument it is given)
+	var inv, rpc *ssa.Call
 	EachInstr(fn, func(in ssa.Instruction) {
 		if cl, ok := in.(*ssa.Call); ok && MatchCC(&cl.Call, sInvokeRPC) {
-			inv = cl
+			inv, rpc = cl, cl
 		}
 	})
 	if inv == nil {
+		EachInstr(fn, func(in ssa.Instruction) {
+			cl, ok := in.(*ssa.Call)
+			if !ok || cl.Call.StaticCallee() == nil || PkgOf(cl.Call.StaticCallee()) != PkgOf(fn) || SoleCallSite(cl.Call.StaticCallee()) != in {
+				return
+			}
+			EachInstr(cl.Call.StaticCallee(), func(i2 ssa.Instruction) {
+				if c2, ok := i2.(*ssa.Call); ok && MatchCC(&c2.Call, sInvokeRPC) {
+					inv, rpc = cl, c2
+				}
+			})
+		})
+	}
+	if inv == nil {
 		c.Anchor("O20.1", "Stub.InvokeRpc in "+key)
 		return
+	}
+	invArg := func(k int) ssa.Value {
+		a := rpc.Call.Args[k]
+		if rpc == inv {
+			return a
+		}
+		if pr, ok := Strip(a).(*ssa.Parameter); ok {
+			for i, q := range pr.Parent().Params {
+				if q == pr {
+					if v := ArgOfParam(inv, pr.Parent(), i); v != nil {
+						return v
+					}
+				}
+			}
+		}
+		return a
 	}
 	iv := countCalls(fn, func(in ssa.Instruction) bool { return IsCall(in, sInvokeRPC) })
 	c.Check(iv.Max == 1, "O20.1", key+":at-most-one-rpc-per-entry", inv.Pos(), fmt.Sprintf("InvokeRpc calls per path = %v (want at most 1)", iv))
@@ -102,7 +135,7 @@ func c20Site(c *Ctx, s grpcSite) {
 	} else {
 		okKey := fieldOfEntry(lk.Index, s.entry, s.callField)
 		// arg 2 of InvokeRpc (receiver is arg 0): address of the looked-up descriptor
-		okArg := DerivesAny(inv.Call.Args[2], true, func(v ssa.Value) bool {
+		okArg := DerivesAny(invArg(2), true, func(v ssa.Value) bool {
 			if a, ok := v.(*ssa.Alloc); ok {
 				for _, st := range StoresTo(a) {
 					if IsResultOf(lk, 0)(st.Val) {
@@ -147,7 +180,7 @@ func c20Site(c *Ctx, s grpcSite) {
 				return IsResultOf(lk, 0)(v)
 			})
 		}
-		okMsg := DerivesOnly(inv.Call.Args[3], false, func(v ssa.Value) bool { return v == ssa.Value(nm) }) && um.Call.Args[0] == ssa.Value(nm)
+		okMsg := DerivesOnly(invArg(3), false, func(v ssa.Value) bool { return v == ssa.Value(nm) }) && um.Call.Args[0] == ssa.Value(nm)
 		// payload provenance
 		okPay := false
 		// the JSON handed to UnmarshalJSON: produced here, or by a helper of the package (renderStep(...))
@@ -233,7 +266,7 @@ func c20Site(c *Ctx, s grpcSite) {
 		c.Bad("O20.3", key+":context-wiring", fn.Pos(), "metadata.NewOutgoingContext / metadata.New / context.WithTimeout not all present")
 		return
 	}
-	okCtx := allThrough(inv.Call.Args[1], func(v ssa.Value) bool { return v == ssa.Value(og) }) &&
+	okCtx := allThrough(invArg(1), func(v ssa.Value) bool { return v == ssa.Value(og) }) &&
 		allThrough(og.Call.Args[0], IsResultOf(wt, 0)) && allThrough(og.Call.Args[1], func(v ssa.Value) bool { return v == ssa.Value(mdn) })
 	c.Check(okCtx, "O20.3", key+":context-wiring", og.Pos(), "InvokeRpc(ctx) with ctx = NewOutgoingContext(WithTimeout(...) ctx, metadata.New(...))")
 	// metadata source
@@ -344,7 +377,8 @@ func c20Site(c *Ctx, s grpcSite) {
 	okT = hasConf && hasDefault
 	// cancel deferred
 	okCancel := false
-	EachInstr(fn, func(in ssa.Instruction) {
+	// (in the function that makes the context: the shooting function or the helper that invokes)
+	EachInstr(wt.Parent(), func(in ssa.Instruction) {
 		if d, ok := in.(*ssa.Defer); ok && allThrough(d.Call.Value, IsResultOf(wt, 1)) {
 			okCancel = true
 		}
